@@ -67,4 +67,45 @@ end
 /-- the rule list `xvc check-ignore` answers with -/
 def allRules (t : Tree) : List Pattern := globalRules ++ collectRules (fun _ => []) globalRules [] t
 
+/-! ## the file-system shape of the ignore file
+
+  What the model assumes about the ignore file of a directory: **the rules of a directory are a function of
+  the bytes its ignore-file name resolves to** (`Path::is_file` and `fs::read_to_string` in
+  `update_ignore_rules` / `build_ignore_patterns` follow symbolic links), nothing else — not of whether
+  the name is a regular file, a hard link, a symbolic link (relative, absolute, inside or outside the tree)
+  or a chain of links.  A name that resolves to no regular file (absent, dangling link, link to a
+  directory) loads nothing.  There is **one loader** (`rulesOf`) in the model, used by the serial walk,
+  the parallel walk (`walkWith`, `PStep`) and the rule collection of `check-ignore` (`collectRules`) alike;
+  that each of the three implementations is this loader is what the correspondence check (walkers on
+  link-shaped ignore files vs the model, and vs the same rules as regular files) establishes. -/
+
+/-- how the ignore-file name of a directory exists in the file system -/
+inductive IgnoreEntry where
+  | absent
+  | regular (bytes : Str)
+  | hardLink (bytes : Str)                 -- another name of a regular file
+  | symlink (resolvesTo : Option Str)      -- final target after following every link: a regular file with these bytes, or none (dangling)
+  | symlinkToDir
+
+/-- the bytes `update_ignore_rules` reads: `ignore_path.is_file()` then `fs::read_to_string(ignore_path)` -/
+def IgnoreEntry.resolve : IgnoreEntry → Option Str
+  | .absent => none
+  | .regular b => some b
+  | .hardLink b => some b
+  | .symlink r => r
+  | .symlinkToDir => none
+
+/-- a workspace whose ignore files come in these shapes -/
+inductive ShapedTree where
+  | node (ignore : IgnoreEntry) (files : List Str) (dirs : List (Str × ShapedTree))
+
+mutual
+/-- the view every rule loader has of a shaped workspace -/
+def ShapedTree.resolved : ShapedTree → Tree
+  | .node ig files dirs => .node (ig.resolve.getD []) files (ShapedTree.resolvedDirs dirs)
+def ShapedTree.resolvedDirs : List (Str × ShapedTree) → List (Str × Tree)
+  | [] => []
+  | (n, t) :: ds => (n, t.resolved) :: ShapedTree.resolvedDirs ds
+end
+
 end Ign
